@@ -18,6 +18,7 @@ def exitcode_hook_factory(codes):
         f = st.objs[pref.oid]["fields"]
         tgt = f["target"]
         if isinstance(tgt, X.PyFunc) and tgt.name == "_worker":
+            st.effects.append(("exitcode-read", pref.oid))
             i = ex.concrete(f["args"][0])
             if i == 0 and not f.get("seen_none"):
                 f["seen_none"] = True
@@ -46,6 +47,17 @@ def check_monitor(chk, ex_factory, found):
     rets = [o for o in outs if o.kind == "return"]
     raises = [o for o in outs if o.kind == "raise"]
     _wrappers.row(chk, name + ":both-outcomes-explored", bool(rets) and bool(raises), [o.kind for o in outs][:8], found)
+    # wait-for order (the decidable part of 'terminates'): the queue filler blocks on the bounded
+    # queue whenever no worker consumes, and only the monitor loop notices dead workers and closes the
+    # queue; so parallel_add must not wait for the filler before the monitor loop has seen every
+    # worker's exit code - otherwise a dead worker with a backlog hangs it
+    for i, o in enumerate(outs):
+        eff = o.state.effects
+        fillers = [e[1] for e in eff if e[0] == "process-new" and isinstance(e[2], X.PyFunc) and e[2].name == "_fill_queue"]
+        joins = [k for k, e in enumerate(eff) if e[0] == "join" and e[1] in fillers]
+        reads = [k for k, e in enumerate(eff) if e[0] == "exitcode-read"]
+        ok = not joins or (reads and min(joins) > max(reads))
+        _wrappers.row(chk, "%s:filler-is-joined-only-after-the-monitor-loop#%d" % (name, i), ok, "join of the queue filler at effect %s, worker exit codes read at %s" % (joins[:1], reads[:3]), found)
     allzero = z3.And(*[c == 0 for c in codes])
     merge_ok = lambda o: [f for f in o.state.pc]
     for i, o in enumerate(rets):
